@@ -153,11 +153,15 @@ func refStep(b *builtSpec, st *State, orig match.Bindings, pending interface{}) 
 //	3 matching: one branch with an arbitrary (lazy, symbolic strings) pattern against message/bindings
 //	4 combination: action + guarded vocabulary branch + error settings
 //	5 branch-target variables bound by the branch itself: vocabulary pattern and/or guard, "@?x" / "@k" targets
+//	6 several candidates: array patterns that match in as many ways as the message's array has elements
+//	  (symbolic strings), guards that accept all, none, or selectively (by the value bound to ?x), "@?x" targets:
+//	  the guard sees the candidates one by one and the first one it accepts decides; without a guard several
+//	  candidates are an error
 func c04Opts() (o specOpts, msg verif.Opts, bsWidth int) {
 	msg = verif.Opts{Depth: 1, Width: 1, Finite: true, NoVar: true, NoVarKeys: true, Pool: poolKeys, ValPool: poolValues}
 	bsWidth = 1
 	thorough := verif.Tier() > 0
-	slice := verif.Choose("slice", 6)
+	slice := verif.Choose("slice", 7)
 	verif.Note("slice-" + string(rune('0'+slice)))
 	switch slice {
 	case 0:
@@ -193,6 +197,10 @@ func c04Opts() (o specOpts, msg verif.Opts, bsWidth int) {
 		o = specOpts{actionMode: 0, noNilBranches: true, branches: 1, patMode: 1, withGuards: true, grdKinds: []int{aIdent, aSet, aNilBs}, fixedErr: true, pooled: true, small: true}
 		msg = verif.Opts{Depth: 1, Width: 1, Finite: true, NoVar: true, NoVarKeys: true, Pool: []string{"a"}, ValPool: []string{"n1", "zz"},
 			Tags: verif.TMap | verif.TStr, Leaf: verif.TStr | verif.TF64}
+	case 6:
+		o = specOpts{actionMode: 0, noNilBranches: true, branches: 1, patMode: 1, multi: true, withGuards: true,
+			grdKinds: []int{aIdent, aAcceptIf, aNilBs, aSet, aFail}, fixedErr: true, pooled: true, small: true}
+		msg = verif.Opts{Depth: 0, Leaf: verif.TNil, NoVar: true} // replaced by c04MultiMessage
 	default:
 		o = specOpts{actionMode: 1, noNilBranches: true, noMessage: true, branches: 1, patMode: 1, withGuards: true,
 			actKinds: []int{aSet, aFail, aNilBs}, grdKinds: []int{aIdent, aNilBs, aFail}, fixedTarget: true, pooled: true}
@@ -217,6 +225,13 @@ func VerifC04Step() {
 		st.NodeName = "nowhere"
 	}
 	pending := verif.AnyJSON("pending", msgOpts)
+	if o.multi {
+		pending = c04MultiMessage()
+		if b.spec.Nodes["n0"].Branches != nil && b.spec.Nodes["n0"].Branches.Type != "message" {
+			// bindings branching: the array sits in the bindings
+			st.Bs["a"] = c04MultiArray()
+		}
+	}
 	orig := st.Bs.Copy()
 
 	var stride *Stride
@@ -265,4 +280,29 @@ func VerifC04Step() {
 	} else {
 		verif.Reach("no-transition")
 	}
+}
+
+// c04MultiArray: an array of up to three (thorough: four) symbolic strings.
+func c04MultiArray() []interface{} {
+	max := 3
+	if verif.Tier() > 0 {
+		max = 4
+	}
+	n := verif.Choose("multi.len", max+1)
+	arr := make([]interface{}, 0, n)
+	for i := 0; i < n; i++ {
+		arr = append(arr, verif.AnyString("multi.elem"))
+	}
+	return arr
+}
+
+// c04MultiMessage: nothing pending, the array itself, or the array under "a".
+func c04MultiMessage() interface{} {
+	switch verif.Choose("multi.shape", 3) {
+	case 0:
+		return nil
+	case 1:
+		return c04MultiArray()
+	}
+	return map[string]interface{}{"a": c04MultiArray()}
 }
